@@ -151,7 +151,24 @@ def build(pdesc):
             sp = ArgumentParser(exit_on_error=False)
             fill(sp, t)
             sc.add_subcommand(sname, sp)
+    # construction history: link_arguments attempts (apply_on="instantiate"), some of which the library rejects; the
+    # program catches the ValueError and goes on, as an application with optional wiring would
+    outcomes = []
+    for ln in pdesc.get("links") or []:
+        try:
+            p.link_arguments(ln["src"], ".".join(ln["tgt"]), compute_fn=_three, apply_on="instantiate")
+            outcomes.append(True)
+        except ValueError:
+            outcomes.append(False)
+    LAST_LINK_OUTCOMES[:] = outcomes
     return p
+
+
+def _three(*_):
+    return 3
+
+
+LAST_LINK_OUTCOMES = []
 
 
 FAMILIES = [
@@ -242,9 +259,18 @@ def one(case):
         return {"r": "other", "what": "%s: %s" % (type(e).__name__, str(e)[:160])}
 
 
+def one_with_links(case):
+    """one() plus the observed outcome of every link_arguments attempt of the parser's construction history"""
+    links = case["parser"].get("links") or []
+    LAST_LINK_OUTCOMES[:] = []
+    o = one(case)
+    o["links"] = list(LAST_LINK_OUTCOMES) if len(LAST_LINK_OUTCOMES) == len(links) else [False] * len(links)
+    return o
+
+
 def main():
     payload = json.load(sys.stdin)
-    out = [one(c) for c in payload["cases"]]
+    out = [one_with_links(c) for c in payload["cases"]]
     print(json.dumps(out))
 
 
